@@ -1044,10 +1044,14 @@ int config_setting_set_int(config_setting_t *setting, int value)
       setting->value.ival = value;
       return(CONFIG_TRUE);
 
+    case CONFIG_TYPE_INT64:
+      setting->value.llval = value;
+      return(CONFIG_TRUE);
+
     case CONFIG_TYPE_FLOAT:
       if(config_get_auto_convert(setting->config))
       {
-        setting->value.fval = (float)value;
+        setting->value.fval = (double)value;
         return(CONFIG_TRUE);
       }
       else
@@ -1084,7 +1088,7 @@ int config_setting_set_int64(config_setting_t *setting, long long value)
     case CONFIG_TYPE_FLOAT:
       if(config_get_auto_convert(setting->config))
       {
-        setting->value.fval = (float)value;
+        setting->value.fval = (double)value;
         return(CONFIG_TRUE);
       }
       else
